@@ -50,6 +50,8 @@ type Engine struct {
 	wsDone    bool
 	ghosts    map[string]string
 	pureIfaceMethods map[string]bool
+	escFields map[string]int
+	escCells  map[string]bool
 }
 
 // WriteSet: region key -> true if possibly written at non-fresh refs (wholesale), false if only on objects allocated by the callee.
@@ -156,6 +158,7 @@ func LoadEngine(dir string, patterns []string, specDirs []string) (*Engine, erro
 		}
 		e.contracts[c.FuncName] = append(e.contracts[c.FuncName], c)
 	}
+	e.hasEscaping() // computed once, before any concurrent use
 	return e, nil
 }
 
